@@ -87,8 +87,21 @@ class TraceJob:
         sd = vlib.seed() * 1000 + self.salt
         info = vlib.record_trace(binpath, self.tag(), self.ptype, self.profile, self.runs, self.events, sd)
         if info.get("diverged"):
+            import shutil as _sh
+            _sh.rmtree(info["dir"], ignore_errors=True)
             return dict(info, lines=0, lines_ok=0, rejections=[], diverged=True)
         res = vlib.validate_trace(info)
+        if res["rejections"] and not self.profile.endswith("+obs"):
+            # some call deviated: replay the same history logging the observation-relative lines after
+            # every call, so that the observer properties are judged on every state the code went through
+            info2 = vlib.record_trace(binpath, self.tag() + "_obs", self.ptype, self.profile + "+obs", self.runs,
+                                      self.events, sd)
+            if not info2.get("diverged"):
+                res2 = vlib.validate_trace(info2, max_rounds=8)
+                res["rejections"] += res2["rejections"]
+                res["followup_obs_lines_ok"] = res2["lines_ok"]
+                import shutil as _sh
+                _sh.rmtree(info2["dir"], ignore_errors=True)
         res["per_action"] = info.get("per_action")
         res["max_entries"] = info.get("max_entries")
         res["seed"] = sd
@@ -128,12 +141,23 @@ def plan(prop, tier):
     sets = targets(["u32"] if q else ["u8", "u32", "u128", "Ipv4Net", "Ipv6Cidr"], ("set",))
     both = targets(types) + sets
     core = ["Insert", "Remove", "RemoveKeepTree", "RemoveChildren"]
+    # canonical shapes of the 3-bit universe (15 keys): deep enough for grand-parent collapses
+    def u3c(name, emit, extra=(), mc=None):
+        acts = ["Insert", "Remove", "Retain"] + list(extra)
+        return TableJob(name, acts, emit, keylen=3, maxcount=mc or (4 if q else 6), targets=targets(["u32", "u8"] if q else types) + sets,
+                        timeout=1500)
+    # shapes with value-less leftovers in the 3-bit universe, capped
+    def u3k(name, emit, extra=(), mc=None, mn=None):
+        acts = ["Insert", "Remove", "RemoveKeepTree"] + list(extra)
+        return TableJob(name, acts, emit, keylen=3, maxcount=mc or (2 if q else 3), maxnodes=mn or (5 if q else 6),
+                        targets=targets(["u32"] if q else types), timeout=1500)
     if prop == "C01":
         return [TableJob("c01_u2", MUT + EXACT, MUT + EXACT, vals="{1,2}", maxcount=3 if q else 7,
                          targets=targets(types)),
                 TableJob("c01_u2s", MUT + EXACT, MUT + EXACT, targets=sets),
                 TableJob("c01_entry", ["Insert", "Remove", "RemoveKeepTree", "Entry", "GetMut"], ["Entry", "GetMut"],
-                         vals="{1,2}", maxcount=2 if q else 3, entrydepth=1 if q else 2, targets=targets(types))]
+                         vals="{1,2}", maxcount=2 if q else 3, entrydepth=1 if q else 2, targets=targets(types)),
+                u3c("c01_u3c", ["Insert", "Remove", "Retain", "Get"], ["Get"])]
     if prop == "C02":
         return [TableJob("c02_u2", MUT + ["Lpm"], ["Lpm"], targets=both)]
     if prop == "C03":
@@ -146,7 +170,8 @@ def plan(prop, tier):
     if prop == "C09":
         return [TableJob("c09_u2", MUT + ["Spm", "Cover", "Lpm"], ["Spm", "Cover"], targets=both)]
     if prop == "C10":
-        return [TableJob("c10_u2", MUT + ["Children"], ["Children", "RemoveChildren", "Retain"], targets=both)]
+        return [TableJob("c10_u2", MUT + ["Children"], ["Children", "RemoveChildren", "Retain"], targets=both),
+                u3c("c10_u3c", ["Retain", "Children"], ["Children"])]
     if prop == "C11":
         return [TableJob("c11_u2", core + ["ViewDesc"], ["ViewDesc"], targets=both)]
     if prop == "C12":
@@ -183,9 +208,13 @@ def plan(prop, tier):
                 PairJob("c18_pairs", IR, IR, pops, 2, 2, hosts='{"0","2"}', timeout=200, nodes_a=2 if q else 3, nodes_b=2,
                         targets=[(t, "map-map", "plain") for t in (["u32", "Ipv6Net"] if q else hostful)])]
     if prop == "C15":
-        return [TableJob("c15_u2", MUT, MUT, targets=both)]
+        return [TableJob("c15_u2", MUT, MUT, targets=both),
+                u3c("c15_u3c", ["Insert", "Remove", "Retain"]),
+                u3k("c15_u3k", ["Insert", "Remove", "RemoveKeepTree", "RemoveChildren"], ["RemoveChildren"])]
     if prop == "C16":
-        return [TableJob("c16_u2", MUT, MUT, viewacct=True, targets=both)]
+        return [TableJob("c16_u2", MUT, MUT, viewacct=True, targets=both),
+                u3c("c16_u3c", ["Insert", "Remove", "Retain"]),
+                u3k("c16_u3k", ["Insert", "Remove", "RemoveKeepTree", "RemoveChildren"], ["RemoveChildren"])]
     raise ToolError(f"no plan for {prop}")
 
 
@@ -193,7 +222,47 @@ LEVEL = {p: "model_checking" for p in ["C01", "C02", "C03", "C04", "C05", "C06",
                                        "C13", "C15", "C16", "C18", "C19"]}
 
 
+def run_c17(tier):
+    t0 = time.time()
+    q = tier == "quick"
+    binpath = vlib.build_harness("dev")
+    laws = vlib.alg_laws(3 if q else 4)
+    types = ALL_TYPES
+    mode = "quick" if q else "thorough"
+    with cf.ThreadPoolExecutor(max_workers=7) as ex:
+        infos = list(ex.map(lambda t: vlib.alg_check(binpath, t, mode, vlib.seed()), types))
+    viol = 0
+    for inf in infos:
+        bad = inf.get("rejected_line") or (inf.get("oracle_fail") and {"oracle": inf["oracle_fail"]})
+        if bad:
+            viol += 1
+            path = vlib.write_replay("C17", dict(property="C17", engine="alg", ptype=inf["ptype"], line=bad,
+                                                 note="logged evaluation of the real Prefix operations rejected by AlgV.tla / oracle"))
+            print(f"VIOLATION property=C17 replay={path}")
+            print(f"  {inf['ptype']}: {json.dumps(bad)[:400]}")
+    evals = sum(i["lines_ok"] for i in infos) + sum(i["oracle_pairs"] for i in infos)
+    cov = dict(evaluations=evals,
+               distinct_nontrivial=sum(i["lines_ok"] for i in infos),
+               rule="per type: every (address, length) of the 8-bit tuple type, boundary-biased addresses x all lengths for wider types; "
+                    "one logged line per value (unary operations, is_bit_set for all 256 indices) or ordered pair (contains, eq, lcp both ways); "
+                    "distinct_nontrivial = lines validated by TLC against Bits.tla (lines are generated without repetition per value/partner); "
+                    "in addition all 5 308 416 ordered pairs of the 8-bit universe (and a random sample for wider types) are compared with an in-process oracle",
+               samples=[i["sample"] for i in infos[:3]],
+               exhaustive=False,
+               per_type=[{k: i.get(k) for k in ("ptype", "values", "lines", "lines_ok", "pair_lines", "oracle_pairs", "exhaustive_values", "accepted")} for i in infos],
+               laws=laws)
+    vlib.write_evidence("C17", tier, "exploration", cov, time.time() - t0, viol,
+                        ["Bits.tla is the definition of the algebra (its laws are model-checked for all widths up to %d)" % laws["max_tw"],
+                         "the harness reads values through the types' own accessors (addr/prefix_len, ip/prefix, ...), not through the Prefix trait"])
+    if viol:
+        return 1
+    print(f"OK property=C17 tier={tier} lines_validated={cov['distinct_nontrivial']} oracle_pairs={sum(i['oracle_pairs'] for i in infos)} wall={time.time()-t0:.0f}s")
+    return 0
+
+
 def run_check(prop, tier):
+    if prop == "C17":
+        return run_c17(tier)
     t0 = time.time()
     jobs = plan(prop, tier)
     th, built = vlib.build_harness_async("dev")
@@ -230,9 +299,21 @@ TRACE_PROPS = {"C01", "C02", "C03", "C04", "C05", "C06", "C07", "C08", "C09", "C
 
 def conclude(prop, tier, t0, jobs, tlc_results, reports, traces=()):
     mine, foreign = [], 0
+    def diverged_mm(rec, engine):
+        ev = rec.get("event") or {"a": "?"}
+        mm = dict(kind="diverged", e=ev, h=[], expected="the call returns", got="no return within the time limit",
+                  ptype=rec.get("ptype"), coll=rec.get("coll", "trace:" + str(rec.get("profile"))), ctx=rec.get("ctx", "plain"),
+                  engine=engine)
+        return mm
+
     for tr in traces:
         if tr.get("diverged"):
-            raise ToolError(f"trace driver on {tr.get('ptype')} did not terminate")
+            mm = diverged_mm(tr, "trace")
+            if prop in vlib.owners(mm):
+                mine.append(mm)
+            else:
+                foreign += 1
+            continue
         for rej in tr["rejections"]:
             for mm in vlib.trace_mismatches(rej):
                 mm = dict(mm, ptype=tr["ptype"], coll="trace:" + str(tr["profile"]), ctx="plain", engine="trace")
@@ -244,12 +325,19 @@ def conclude(prop, tier, t0, jobs, tlc_results, reports, traces=()):
                         log("foreign trace mismatch", sorted(vlib.owners(mm)), json.dumps(mm)[:1200])
     for rep in reports:
         if rep.get("diverged"):
-            if prop == "C20":
-                mine.append(dict(kind="diverged", e={"a": "?"}, h=[], expected="termination", got="time-out",
-                                 ptype=rep["ptype"], coll=rep["coll"], ctx=rep["ctx"]))
+            mm = diverged_mm(rep, "table")
+            if prop in vlib.owners(mm):
+                mine.append(mm)
             else:
-                raise ToolError(f"replay on {rep['ptype']} did not terminate")
+                foreign += 1
             continue
+        for rej in rep.get("side_rejections", []):
+            for mm in vlib.trace_mismatches(rej):
+                mm = dict(mm, ptype=rep["ptype"], coll=rep["coll"], ctx=rep["ctx"], engine="table-observation")
+                if prop in vlib.owners(mm):
+                    mine.append(mm)
+                else:
+                    foreign += 1
         for mm in rep["mismatches"]:
             mm = dict(mm, ptype=rep["ptype"], coll=rep["coll"], ctx=rep["ctx"])
             if prop in vlib.owners(mm):
@@ -284,7 +372,7 @@ def conclude(prop, tier, t0, jobs, tlc_results, reports, traces=()):
         rows_executed_per_action=per_action,
         traces=[dict(ptype=t["ptype"], profile=t["profile"], seed=t.get("seed"), lines=t["lines"], lines_accepted=t["lines_ok"],
                      rejections=len(t["rejections"]), per_action=t.get("per_action"), max_entries=t.get("max_entries"),
-                     sample_line=t.get("sample")) for t in traces],
+                     diverged=bool(t.get("diverged")), sample_line=t.get("sample")) for t in traces],
         trace_lines_validated_by_tlc=sum(t.get("lines_ok", 0) for t in traces),
         disagreements_owned_by_other_properties=foreign,
         rule="every transition TLC generates in the bounded universe is executed on the real code "
